@@ -267,9 +267,10 @@ Definition finish (j : job) (r : kres) : jres :=
   | KFuel => JFuel
   end.
 
-(* the lock flag that the tasks of a whole-partition job see.  toLocalIterator() hands the caller a
-   generator over the task results ([tli_deferred], regenerated): runJob has returned and released the
-   lock before the first task starts *)
+(* the lock flag that the tasks of a whole-partition job see.  If toLocalIterator() handed the caller a
+   generator over the task results ([tli_deferred], regenerated from its source), runJob would have returned
+   and released the lock before the first task starts; since /repo e07529e it evaluates the partitions inside
+   runJob and [tli_deferred] is false *)
 Definition held_of (a : Z) : bool :=
   if (act_class a =? 1) && tli_deferred then lock_after_ok else lock_on_entry.
 
